@@ -72,11 +72,20 @@ pub fn expectation(tok: &RefToken, claims_clear: &Value, presented: &[String], m
 }
 
 /// run the three consumers of a presentation string
-pub fn run_verify(token: &str, kbpol: bool) -> Value {
+pub fn kb_validation(cfg: &Value) -> Validation {
+    let alg: Algorithm = serde_json::from_value(json!(cfg["alg"].as_str().unwrap_or("RS256"))).unwrap_or(Algorithm::RS256);
+    let mut v = Validation::new(alg);
+    v.validate_exp = false;
+    if let Some(a) = cfg["aud"].as_str() {
+        v.aud = Some(std::collections::HashSet::from([a.to_string()]));
+    }
+    v
+}
+
+pub fn run_verify(token: &str, kbpol: bool, kbcfg: &Value) -> Value {
     let key = KeyForDecoding::from_secret(SECRET);
     let val = hs_validation();
-    let mut kbval = Validation::new(Algorithm::RS256);
-    kbval.validate_exp = false;
+    let kbval = kb_validation(kbcfg);
     let kb_opt: Option<&Validation> = if kbpol { Some(&kbval) } else { None };
     json!({
         "hverify": outcome(|| Holder::verify(token, &key, &val), |(h, c, ps)| json!([h, c, sorted_path_triples(&ps)])),
@@ -87,7 +96,7 @@ pub fn run_verify(token: &str, kbpol: bool) -> Value {
 
 pub fn exec_verify(input: &Value) -> Value {
     let token = input["token"].as_str().unwrap_or("");
-    run_verify(token, input["kbpol"].as_bool().unwrap_or(false))
+    run_verify(token, input["kbpol"].as_bool().unwrap_or(false), &input["kbval"])
 }
 
 #[allow(dead_code)]
